@@ -162,7 +162,10 @@ pub fn report(v: super::Violation) {
             let line = format!("!! VIOLATION {} [{}] {}", v.prop, v.kind, v.detail);
             c.trace.push(line);
         }
-        c.violations.push(v)
+        // Bounded: a harness that keeps going after a violation must not exhaust memory.
+        if c.violations.len() < 64 {
+            c.violations.push(v)
+        }
     })
 }
 
